@@ -42,6 +42,12 @@ func Families(quick bool) []*Schema {
 		f2.Root(structT(fmt.Sprintf("ST%02d", m), "tuple", fld("alpha", "Int", m&1 != 0, m&2 != 0), fld("beta", "String", m&4 != 0, m&8 != 0)))
 	}
 	f2.Root(structT("ST3", "tuple", fld("x", "Int", false, true), fld("y", "String", true, false), fld("z", "Int", true, true)))
+	// a tuple whose nullable and optional fields hold a struct whose representation differs from its
+	// type-level form (a renamed key, an optional that may be absent), beside the same type in a plain field
+	rn := fld("alpha", "String", false, false)
+	rn.Rename = "a"
+	f2.Add(structT("Ren", "map", rn, fld("beta", "String", true, false)))
+	f2.Root(structT("STRen", "tuple", fld("p", "Ren", false, false), fld("n", "Ren", false, true), fld("o", "Ren", true, false)))
 	out = append(out, f2)
 
 	// F3: stringjoin and listpairs (listpairs: reflection engine only)
@@ -82,6 +88,11 @@ func Families(quick bool) []*Schema {
 	f5.Add(structT("HasSJ", "map", fld("k", "SJ", false, false), fld("u", "USP", true, false), fld("n", "Int", false, false)))
 	f5.Root(&Type{Name: "ListHasSJ", Kind: TList, ValType: "HasSJ"})
 	f5.Root(&Type{Name: "MapHasSJ", Kind: TMap, KeyType: "String", ValType: "HasSJ"})
+	// containers of structs whose fields are recursive at representation level too (a list, a struct, a
+	// map): element assemblers are reused from one element to the next
+	f5.Add(structT("HasRec", "map", fld("l", "Ints", false, false), fld("p", "Pt", true, false), fld("m", "MapSI", false, true)))
+	f5.Root(&Type{Name: "ListHasRec", Kind: TList, ValType: "HasRec"})
+	f5.Root(&Type{Name: "MapHasRec", Kind: TMap, KeyType: "String", ValType: "HasRec"})
 	out = append(out, f5)
 
 	// F6: enums (reflection engine only)
